@@ -65,7 +65,7 @@ def node_names(draw, n, odd_ok=True):
 
 # ------------------------------------------------------------------------------------------- DAGs
 @st.composite
-def dags(draw, min_nodes=2, max_nodes=5, odd_names=True, allow_isolated=False):
+def dags(draw, min_nodes=2, max_nodes=5, odd_names=True, allow_isolated=False, force_shape=None):
     """A DAG as (nodes_in_insertion_order, edges).  Nodes come in a drawn topological order, every forward
     pair is an edge according to a drawn density class.  Nodes without any edge are dropped unless allowed."""
     sizes = list(range(min_nodes, max_nodes + 1))
@@ -75,8 +75,16 @@ def dags(draw, min_nodes=2, max_nodes=5, odd_names=True, allow_isolated=False):
     dens = draw(st.sampled_from([5, 3, 4, 6, 8]))  # out of 8
     ch = draw(choosers())
     edges = []
-    shape = draw(st.sampled_from(["random"] * 8 + ["path", "star_out", "star_in"]))
-    if shape == "path":
+    shape = draw(st.sampled_from(["random"] * 8 + ["path", "star_out", "star_in", "hourglass"]))
+    shape = force_shape or shape
+    if shape == "hourglass" and n >= 5:
+        # several ways into one hub and several ways out of it: routes can be recombined at the hub, which is where
+        # heuristics (greedy, safety) and exact answers part ways
+        a = 2 + (ch.below(2) if n >= 6 else 0)
+        tops, hub, bottoms = names[:a], names[a], names[a + 1:]
+        edges = [(t_, hub) for t_ in tops] + [(hub, b_) for b_ in bottoms]
+        edges += [(t_, b_) for t_ in tops for b_ in bottoms if ch.below(8) == 0]
+    elif shape == "path":
         edges = [(names[i], names[i + 1]) for i in range(n - 1)]
     elif shape == "star_out":
         edges = [(names[0], names[i]) for i in range(1, n)]
@@ -431,7 +439,7 @@ def _subsequence(ch, seq, contiguous):
 
 @st.composite
 def model_cases(draw, classes=None, max_nodes=5, p_node=4, p_se=4, p_ignore=4, p_constr=3, p_opts=0,
-                odd_names=True, noise=True, k_slack=2, weight_types=("int", "float"), p_float_scale=0, p_equal=4, p_len=5, p_wild=0):
+                odd_names=True, noise=True, k_slack=2, weight_types=("int", "float"), p_float_scale=0, p_equal=4, p_len=5, p_wild=0, p_hub=6):
     """A full model construction: class, planted instance, kwargs.  p_* are '1 in p' odds (0 = never).
     The result is a JSON case {cls, graph, flow_attr, kw, meta}; meta carries the planted witness."""
     cls = draw(st.sampled_from(classes or ALL_CLASSES))
@@ -443,7 +451,8 @@ def model_cases(draw, classes=None, max_nodes=5, p_node=4, p_se=4, p_ignore=4, p
     if cyc:
         nodes, edges = draw(cyclic_digraphs(max_nodes=max_nodes + 1, odd_names=odd_names))
     else:
-        nodes, edges = draw(dags(2, max_nodes, odd_names))
+        hub = one_in(p_hub)
+        nodes, edges = draw(dags(5, max(max_nodes, 5), odd_names, force_shape="hourglass")) if hub else draw(dags(2, max_nodes, odd_names))
     srcs, snks = sources_sinks(nodes, edges)
     starts, ends = [], []
     if use_se:
@@ -553,6 +562,29 @@ def model_cases(draw, classes=None, max_nodes=5, p_node=4, p_se=4, p_ignore=4, p
                     es = list(dict.fromkeys(es))
                 sub = _subsequence(ch, es, ch.coin())
                 constraints.append([list(e) for e in sub])
+        if not cyc and len(planted) >= 2 and ch.coin(1, 2):
+            # a "crossing" constraint: enter a shared node along one planted route and leave it along another. The
+            # witness gains that route with weight 0, so the constraint is satisfiable but rarely by the decomposition
+            # a heuristic (greedy, safety) would pick on its own.
+            crossings = []
+            for i, (p1, _w1) in enumerate(planted):
+                for j, (p2, _w2) in enumerate(planted):
+                    if i == j:
+                        continue
+                    for a in range(1, len(p1)):
+                        m = p1[a]
+                        if m in p2[:-1]:
+                            b = p2.index(m)
+                            route = list(p1[:a + 1]) + list(p2[b + 1:])
+                            tri = (p1[a - 1], m, p2[b + 1])
+                            if not any(tuple(q[c:c + 3]) == tri for q, _w in planted for c in range(len(q) - 2)):
+                                crossings.append((route, tri))
+            for _x in range(min(len(crossings), 1 + ch.below(2))):
+                route, (x, m, y) = ch.pick(crossings)
+                con = [x, m, y] if node_mode else [[x, m], [m, y]]
+                if con not in constraints:
+                    constraints.append(con)
+                    planted = list(planted) + [(route, type(planted[0][1])(0))]
         if ch.coin(1, 5):
             constraints.append(constraints[0])
         coverage = ch.pick([1.0, 1.0, 1.0, 0.75, 0.5, 0.34])
@@ -612,7 +644,12 @@ def model_cases(draw, classes=None, max_nodes=5, p_node=4, p_se=4, p_ignore=4, p
         kw["error_scaling"] = scaling
     if constraints:
         kw["subset_constraints" if cyc else "subpath_constraints"] = constraints
-        if lengths is not None:
+        if lengths is not None and ch.coin(1, 2):
+            # a length attribute is named but coverage stays count-based: the lengths must then be irrelevant
+            kw["length_attr"] = "len"
+            if coverage != 1.0:
+                kw["subpath_constraints_coverage"] = coverage
+        elif lengths is not None:
             kw["length_attr"] = "len"
             kw["subpath_constraints_coverage_length"] = coverage
         elif coverage != 1.0:
